@@ -6,6 +6,7 @@ package agent
 import (
 	"fmt"
 	"log"
+	"sync"
 
 	"github.com/hashicorp/serf/serf"
 )
@@ -22,6 +23,12 @@ type eventStream struct {
 	filters []EventFilter
 	logger  *log.Logger
 	seq     uint64
+
+	// stopLock guards stopped and serialises HandleEvent with Stop: the
+	// agent's event loop may still call HandleEvent on a handler list it
+	// copied before the stream was deregistered.
+	stopLock sync.Mutex
+	stopped  bool
 }
 
 func newEventStream(client streamClient, filters []EventFilter, seq uint64, logger *log.Logger) *eventStream {
@@ -45,8 +52,13 @@ func (es *eventStream) HandleEvent(e serf.Event) {
 	}
 	return
 
-	// Do a non-blocking send
+	// Do a non-blocking send, unless the stream was stopped meanwhile
 HANDLE:
+	es.stopLock.Lock()
+	defer es.stopLock.Unlock()
+	if es.stopped {
+		return
+	}
 	select {
 	case es.eventCh <- e:
 	default:
@@ -55,6 +67,12 @@ HANDLE:
 }
 
 func (es *eventStream) Stop() {
+	es.stopLock.Lock()
+	defer es.stopLock.Unlock()
+	if es.stopped {
+		return
+	}
+	es.stopped = true
 	close(es.eventCh)
 }
 
